@@ -5,12 +5,12 @@
    the relativization choices). *)
 From DV Require Import Base.Prelude Model.NameM Model.TokM Model.RdTextM.
 From DV Require Import Proofs.NameValid Proofs.NameText Proofs.TokEsc Proofs.TokTxt Proofs.TokWords
-     Proofs.TokDec Proofs.TokHex Proofs.TokShape Proofs.TokGeneric Proofs.TokUtf8 Proofs.RdTextName Proofs.RdTextAddr Proofs.RdTextBitmap Proofs.RdTextTypes Proofs.RdTextB32 Proofs.RdTextSig Proofs.RdTextEui Proofs.RdTextFmtHex Proofs.RdTextTail Proofs.RdTextGpos Proofs.RdTextApl Proofs.RdTextWks.
+     Proofs.TokDec Proofs.TokHex Proofs.TokShape Proofs.TokGeneric Proofs.TokUtf8 Proofs.RdTextName Proofs.RdTextAddr Proofs.RdTextBitmap Proofs.RdTextTypes Proofs.RdTextB32 Proofs.RdTextSig Proofs.RdTextEui Proofs.RdTextFmtHex Proofs.RdTextTail Proofs.RdTextGpos Proofs.RdTextApl Proofs.RdTextWks Proofs.RdTextSvcb.
 From DV Require Model.SchemaM.
 Open Scope Z_scope.
 
 Definition is_rest (f : tfield) : bool :=
-  match f with FHexRest | FB64Rest _ | FTxtRest | FBitmap | FQOpt | FNamesRest | FB64RestOpt | FB64RestE | FKeyRec | FAplRest | FWksPorts => true | _ => false end.
+  match f with FHexRest | FB64Rest _ | FTxtRest | FBitmap | FQOpt | FNamesRest | FB64RestOpt | FB64RestE | FKeyRec | FAplRest | FWksPorts | FSvcbRec => true | _ => false end.
 
 (* non-empty; the fields that read the rest of the line come last *)
 Fixpoint schema_wf (fs : list tfield) : Prop :=
@@ -57,6 +57,7 @@ Definition val_ok (f : tfield) (v : tval) : Prop :=
   | FAddr4S, VBytes b => all_bytes b = true /\ length b = 4%nat
   | FWksProto, VInt z => 0 <= z <= 255
   | FWksPorts, VBytes bm => all_bytes bm = true /\ wks_canon bm /\ zlen bm <= 8192
+  | FSvcbRec, VSvcb p n ps => svcb_ok p n ps
   | FAplRest, VApl items => Forall item_ok items
   | FKeyRec, VKey f p a at_ k =>
       0 <= f <= 65535 /\ 0 <= p <= 255 /\ 0 <= a <= 255 /\ at_ = [] /\ all_bytes k = true /\
@@ -81,6 +82,7 @@ Definition expect (st : style) (c : pctx) (f : tfield) (v : tval) : res tval :=
   | FNameNoRel, VName n => do n' <- name_path st (mkPctx None false None) n; Ok (VName n')
   | FNamesRest, VNames l => do l' <- map_res (name_path st c) l; Ok (VNames l')
   | FGw _, VGw g a (GwName n) => do n' <- name_path st c n; Ok (VGw g a (GwName n'))
+  | FSvcbRec, VSvcb p n ps => do n' <- name_path st c n; Ok (VSvcb p n' ps)
   | _, _ => Ok v
   end.
 
@@ -213,7 +215,7 @@ Lemma field_ok sty c f v ftext v' R q bl :
                              \/ exists q' bl', forallb is_blank bl' = true /\ st_end = stq q' (bl' ++ R)).
 Proof.
   intros (Hhs & Hbs & HO) Hv Hp He Hbl HR1 HR2.
-  destruct f as [maxv| |tokmax ctormax ne| | |sc| |v6| | | | | |k| |maxc| |en| | | | |bmax| | | |ipsec| | | | | | | | |]; destruct v as [z|b|n|l|ws|nl|g a gw|items|kf kp ka kat kk]; cbn [val_ok] in Hv; try contradiction;
+  destruct f as [maxv| |tokmax ctormax ne| | |sc| |v6| | | | | |k| |maxc| |en| | | | |bmax| | | |ipsec| | | | | | | | | |]; destruct v as [z|b|n|l|ws|nl|g a gw|items|sp sn sps|kf kp ka kat kk]; cbn [val_ok] in Hv; try contradiction;
     cbn [print_field] in Hp; cbn [expect] in He; cbn [is_rest] in HR1, HR2.
   - (* FDec *)
     inversion Hp; subst ftext. inversion He; subst v'. specialize (HR1 eq_refl).
@@ -925,6 +927,26 @@ Proof.
       assert (Heol : is_eol_or_eof (utok t1) = false) by reflexivity. rewrite Heol.
       rewrite E2. cbn [bind rev app fst snd].
       change (utok t1 :: map utok ts') with (map utok (t1 :: ts')). rewrite Hback. cbn [bind]. rewrite Hrt. reflexivity.
+  - (* FSvcbRec *)
+    specialize (HR2 eq_refl). pose proof Hv as (Hpr & V & HB & _).
+    destruct (name_path sty c sn) as [n'| |] eqn:Enp; cbn [bind] in He; try discriminate. inversion He; subst v'.
+    unfold svcb_to_text in Hp.
+    destruct (name_to_styled_text sty sn) as [tgt| |] eqn:Etgt; cbn [bind] in Hp; try discriminate.
+    destruct (map_res svcb_param_text sps) as [pts| |] eqn:Epts; cbn [bind] in Hp; try discriminate.
+    inversion Hp; subst ftext. clear Hp. fold (spaced pts).
+    pose proof (dec_safe sp ltac:(lia)) as Hsp.
+    assert (Etext : bl ++ (dec sp ++ 32 :: tgt ++ spaced pts) ++ R = bl ++ dec sp ++ ([32] ++ tgt ++ (spaced pts ++ R)))
+      by (rewrite <- !app_assoc; cbn [app]; rewrite <- !app_assoc; reflexivity).
+    rewrite Etext.
+    exists (mkTok tIDENT (dec sp) (has_bs (dec sp)) None), (stq false ([32] ++ tgt ++ (spaced pts ++ R))).
+    split; [apply get0_word_q; auto using units_safe, dec_nonempty; apply word_end_blank32|].
+    split; [reflexivity|]. split.
+    { unfold tok_plain, is_identifier. cbn [ttype tvalue]. rewrite safe_word_not_hash by exact Hsp. repeat split; reflexivity. }
+    split; [apply stq_len_word|].
+    intros stX HX _. rewrite has_bs_safe in HX by exact Hsp.
+    destruct (svcb_after_priority sty c sp sn n' sps tgt pts R stX Hv HO HR2 Etgt Enp Epts HX) as (te & st & T1 & T2 & E).
+    exists (VSvcb sp n' sps), st. split; [|split; [reflexivity|split; [discriminate|intros _; left; exists te; split; assumption]]].
+    cbn [parse_field]. rewrite E. reflexivity.
   - (* FAplRest *)
     specialize (HR2 eq_refl). inversion He; subst v'.
     destruct (map_res apl_item_text items) as [ts| |] eqn:Ets; cbn [bind] in Hp; try discriminate.
@@ -1042,7 +1064,7 @@ Qed.
 (* the text of a field that brings its own separator is empty or starts with a blank *)
 Lemma tail_text_shape sty f v b : field_sep f = [] -> print_field sty f v = Ok b -> b = [] \/ exists b', b = 32 :: b'.
 Proof.
-  intros Hs Hp. destruct f; try discriminate; destruct v as [z|x|n|l|ws|nl|g a gw|items|kf kp ka kat kk]; try discriminate; cbn [print_field] in Hp.
+  intros Hs Hp. destruct f; try discriminate; destruct v as [z|x|n|l|ws|nl|g a gw|items|sp sn sps|kf kp ka kat kk]; try discriminate; cbn [print_field] in Hp.
   - (* FBitmap *) destruct ws as [|w ws]; [inversion Hp; left; reflexivity|]. cbn [bitmap_to_text] in Hp.
     destruct (map_res rdtype_to_text (window_types (fst w) 0 (snd w))); cbn [bind] in Hp; try discriminate.
     destruct (bitmap_to_text ws); cbn [bind] in Hp; try discriminate. inversion Hp. right. eexists. reflexivity.
